@@ -165,7 +165,7 @@ Definition c09_row (c : cfg) (ts : list task) (obs : list (obs1 * outcome)) : li
     all2 (ok_pins c) ts o1;
     forallb (fun o => outcome_eqb (snd (fst o)) (snd o)) obs;
     all2 (ok_refuses c) ts o1;
-    forallb ok_nocrash o1 ].
+    forallb ok_nocrash o1; true; true ].
 
 (* ---- launcher selection (find_launcher over a launch order) ----
    obs: per task which launcher of the order was selected (or the exception,
@@ -195,4 +195,50 @@ Definition c09_select_row (cs : list cfg) (ts : list task)
     true;
     all2 (sel_clause ok_refuses cs) ts obs;
     forallb (fun o => match fst o with inl ECrash => false | _ => true end
-                      && match snd o with Some (inl ECrash) => false | _ => true end) obs ].
+                      && match snd o with Some (inl ECrash) => false | _ => true end) obs; true; true ].
+
+(* ---- bulks handled by Popen.work ----
+   obs: per task of the bulk, FAILED or launched with launcher i of the launch
+   order and the command read back from the launch script.  Every task is
+   judged by what the model says for that task ALONE. *)
+Definition handled_eqb (a b : handled) : bool :=
+  match a, b with
+  | HFailed, HFailed => true
+  | HLaunched i c, HLaunched j d => Nat.eqb i j && command_eqb c d
+  | _, _ => false
+  end.
+
+(* the launcher used for the task is the task's own choice: the first of the
+   launch order whose can_launch accepts it; a task is FAILED iff it has none
+   (or its own launcher raises) *)
+Definition bulk_launcher_is_own (cs : list cfg) (t : task) (o : handled) : bool :=
+  match o, handle cs t with
+  | HLaunched i _, HLaunched j _ => Nat.eqb i j
+  | HFailed, HFailed => true
+  | _, _ => false
+  end.
+
+Definition bulk_clause (f : cfg -> task -> obs1 -> bool) (cs : list cfg) (t : task) (o : handled) : bool :=
+  match o with
+  | HFailed => true
+  | HLaunched i cmd =>
+      match nth_error cs i with
+      | Some c => f c t (inr true, inr cmd)
+      | None => false
+      end
+  end.
+
+(* the command in the launch script names exactly the task's own placement *)
+Definition bulk_cmd_matches_placement (cs : list cfg) (t : task) (o : handled) : bool :=
+  bulk_clause ok_count cs t o && bulk_clause ok_nodes cs t o && bulk_clause ok_pins cs t o.
+
+Definition c09_bulk_row (cs : list cfg) (bulk : list task) (obs : list handled) : list bool :=
+  [ eqb_list handled_eqb (map (handle cs) bulk) obs;
+    all2 (bulk_clause ok_count cs) bulk obs;
+    all2 (bulk_clause ok_nodes cs) bulk obs;
+    all2 (bulk_clause ok_pins cs) bulk obs;
+    true;
+    all2 (bulk_clause ok_refuses cs) bulk obs;
+    true;
+    all2 (bulk_launcher_is_own cs) bulk obs;
+    all2 (bulk_cmd_matches_placement cs) bulk obs ].
